@@ -155,8 +155,11 @@ def gen(rng, tier):
         lines = []
         marks = {}
         for g in ("AB", "A", "B"):
-            lines += ["m.new %d" % ncv, "m.opt tfloop 1", cfg(cvconf)] + [cfg(b["conf"]) for b in groups[g]] + mcv
-            if it0:
+            # the engine tells its first step before or after the configuration is read (both happen: NAMD / LAMMPS set it late, a
+            # scripted restart sets it first); in a third of the cases one bias is defined in mid-run instead (see below)
+            early = it0 and (k % 2 == 1)
+            lines += ["m.new %d" % ncv, "m.opt tfloop 1"] + (["m.opt it %d" % it0] if early else []) + [cfg(cvconf)] + [cfg(b["conf"]) for b in groups[g]] + mcv
+            if it0 and not early:
                 lines.append("m.opt it %d" % it0)
             for b in groups[g]:
                 lines += b["ml"]
